@@ -77,6 +77,7 @@ CHECKS = {
         "level_note": "Protocol violations by the consensus engine itself (DeliverTx outside a block, wrong heights) are not external input and are not generated. vm_call needs rpc/core's environment; the harness installs a fake BlockStore knowing the headers it fed.",
         "quick": {"checks": 400, "timeout": 600},
         "thorough": {"checks": 3000, "shards": 15, "timeout": 3000},
+        "fuzz": {"targets": ["FuzzDeliverTx", "FuzzCheckTx", "FuzzQuery"], "seconds": 100, "tiers": ["thorough"]},
         "rule": "rapid-generated histories with hostile DeliverTx/CheckTx/Query inputs; non-trivial = at least one delivered tx decoded and reached a controller (succeeded or failed late); labels count accepted hostile CheckTx and query answers per path; distinct = distinct (tx type,outcome) shape hashes",
         "assumptions": COMMON_ASSUME,
     },
